@@ -20,7 +20,9 @@ SPECS = {'quick': dict(R=4, L=3, A=None, E=3), 'thorough': dict(R=5, L=4, A=None
 
 MACRO_FRAMES = ['\\M', '\\M{}', '\\M{a}', '\\M[a]{b}', '\\M*', '\\M{a}{b}', '\\M a', '\\M}', '\\textbf\\M',
                 '\\frac\\M\\M', '\\hat\\M', '\\sqrt[\\M]{\\M}', '$\\M$', '{\\M', '\\M{a}{b}{c}{d}', '\\M[', '\\M{',
-                '\\M[\\M[a]{b}]{c}', '\\M[\\sqrt[3]{n}]{y}', '\\sqrt[\\M[3]{n}]{y}', '\\item[\\M[a]{b}]']
+                '\\M[\\M[a]{b}]{c}', '\\M[\\sqrt[3]{n}]{y}', '\\sqrt[\\M[3]{n}]{y}', '\\item[\\M[a]{b}]',
+                # the macro inside front matter that a later \maketitle renders (state kept on the converter between nodes)
+                '\\title{\\M}\\maketitle', '\\date\\M\\maketitle', '\\author{\\M{a}}\\title{b}\\maketitle']
 ENV_FRAMES = ['\\begin{E}\\end{E}', '\\begin{E}a\\end{E}', '\\begin{E}{c}a&b\\\\c\\end{E}', '\\begin{E}[x]a\\end{E}',
               '\\begin{E}\\begin{E}a\\end{E}\\end{E}', '\\begin{E}a', '\\begin{E}{c}\\end{E}', '\\begin{E}{c}&\\\\\\end{E}',
               # ragged rows (first row shortest / longest / empty), also inside a formula; optional argument nested in the optional argument
@@ -58,7 +60,7 @@ def all_names():
 # converter objects keep state between calls (document title, caches): call histories on ONE converter object
 HIST_MENU = ['\\title{}', '\\title{a}', '\\title{\\label{k}}', '\\author{}', '\\date{b}', '\\maketitle',
              '\\begin{pmatrix}a&b\\end{pmatrix}', '\\pmatrix{a}', '\\begin{equation}a\\end{equation}', '\\equation', '\\align{a}',
-             '\\begin{align}$c$\\end{align}', '\\item[a]', '\\input{x}', '%c']
+             '\\begin{align}$c$\\end{align}', '\\item[a]', '\\input{x}', '%c', '\\title{a\\maketitle}', '\\date\\maketitle']
 HIST_OPTS = [0, 37, 64, 127]
 
 
@@ -97,9 +99,9 @@ def plan(tier):
         shards=shards, bounds=dict(spec, macro_names=len(m), env_names=len(e), option_sets=len(OPTS),
                                    macro_frames=MACRO_FRAMES, env_frames=ENV_FRAMES),
         rule=(sweeps.describe(spec) + '; name sweep: each of the %d macro names of the default walker+text databases in %d '
-              'frames and each of the %d environment names in %d frames; every input x all %d option sets; call histories: all sequences of <= 3 (4) calls over a 15-snippet menu (title/author/date/maketitle forms, environment and macro of the same name, math inside a math environment, ...) on ONE converter object under 4 option sets, and the same snippets in one document (one evaluation = '
+              'frames and each of the %d environment names in %d frames; every input x all %d option sets; call histories: all sequences of <= 3 (4) calls over a %d-snippet menu (title/author/date/maketitle forms, environment and macro of the same name, math inside a math environment, ...) on ONE converter object under 4 option sets, and the same snippets in one document (one evaluation = '
               'one input with all option sets).  non-trivial = inputs whose tolerant parse contains a macro, environment, '
-              'formula or specials node; inputs are distinct by construction.' % (len(m), len(MACRO_FRAMES), len(e), len(ENV_FRAMES), len(OPTS))),
+              'formula or specials node; inputs are distinct by construction.' % (len(m), len(MACRO_FRAMES), len(e), len(ENV_FRAMES), len(OPTS), len(HIST_MENU))),
         assumptions=['latex_to_text(s) == nodelist_to_text(tolerant parse of s) as documented; latex_to_text itself is exercised for 8 option sets on every input'],
     )
 
